@@ -7,6 +7,7 @@ STARTED iff the last event of the round is ACTIVATED (`LInv`).  Frame lemmas (re
 -/
 import Iec.Lemmas.Srv104OneStarted
 import Iec.Lemmas.Srv104Activate
+import Iec.Lemmas.Srv104Win
 namespace Iec.Srv104
 open Iec.KWindow Iec.Queues
 
@@ -703,12 +704,7 @@ theorem linv_tick (s : Slave) (h : LInv s) : LInv (tick s) := by
 /-- what the environment does between two calls: octets arrive, peers close, writes start or stop failing, connections
 become pending, the clock advances, the application answers connection requests - the connection records keep everything
 but their socket, nothing is logged -/
-structure LEnv where
-  f : Slave → Slave
-  len : ∀ s, (f s).conns.length = s.conns.length
-  conn : ∀ s j, (f s).conn j = { s.conn j with sock := ((f s).conn j).sock }
-  log : ∀ s, (f s).log = s.log
-  oc : ∀ s, (f s).openConnections = s.openConnections
+abbrev LEnv := WEnv
 
 inductive LOp where
   | tick
@@ -926,31 +922,5 @@ theorem lifeOf_prefix (l1 l2 : List Obs) (j : Nat) (h : lifeOf (l1 ++ l2) j ≠ 
   unfold lifeOf at h3 ⊢
   rw [List.foldl_append]
   exact lifeOf_3_absorbing j l2 _ h3
-
-/-! ### environment events used by the concrete histories of the property files -/
-
-def lenvPending (sk : Sock) : LEnv where
-  f s := { s with pending := s.pending ++ [sk] }
-  len _ := rfl
-  conn _ _ := rfl
-  log _ := rfl
-  oc _ := rfl
-
-def lenvFeed (i : Nat) (bytes : List Nat) : LEnv where
-  f s := s.setConn i { s.conn i with sock := { (s.conn i).sock with chunks := (s.conn i).sock.chunks ++ [bytes] } }
-  len s := setConn_len _ _ _
-  conn s j := by
-    by_cases hj : j = i
-    · subst hj
-      by_cases hl : j < s.conns.length
-      · rw [conn_setConn _ _ _ hl]
-      · have hs : ∀ c, s.conns.set j c = s.conns := fun c => List.set_eq_of_length_le (Nat.le_of_not_lt hl)
-        have : ∀ c, (s.setConn j c).conn j = s.conn j := by intro c; unfold Slave.conn Slave.setConn; simp only [hs]
-        rw [this]
-    · rw [conn_setConn_ne _ _ _ _ hj]
-  log _ := rfl
-  oc _ := rfl
-
-def lifeDemoParams : Params := { k := 2, w := 1, t0 := 10, t1 := 15, t2 := 10, t3 := 20, mode := 0, maxOpen := 0, lowQ := 4, highQ := 4, asduHdr := 6, replies := 0, nSlots := 2 }
 
 end Iec.Srv104
